@@ -34,7 +34,7 @@ def BiCGSTAB_reset(Op,rhs,x0,eps=1e-6,nmax=40):
         Ap = Op.matvec(p)
         alpha = tn.dot(r.squeeze(),r0p.squeeze()) / tn.dot(Ap.squeeze(),r0p.squeeze())
         s = r - alpha * Ap
-        if tn.linalg.norm(s)<eps:
+        if tn.linalg.norm(s)<eps*norm_rhs:
             x_n = x+alpha*p
             break
         
